@@ -279,6 +279,8 @@ def abs_obj(v, ids, stack=(), private_depth=None):
     if isinstance(v, Iterable):
         if private_depth is not None and not isinstance(v, (list, tuple)):
             return ["other", describe(type(v)), False]
+        if isinstance(v, (set, frozenset)) and all(isinstance(x, str) and clean(x) == x for x in v):
+            return ["set", list(v)]            # the elements in the iteration order of this process (a fact, not sorted here)
         try:
             it = iter(sorted(v, key=str)) if FACTS.get("sets_sorted") and isinstance(v, (set, frozenset)) else iter(v)
         except TypeError:
